@@ -965,6 +965,8 @@ class C11(Check):
             if len(oa.get("v", [])) != nk or any(t != hexf(a.prior) for t in oa.get("v", [])):
                 self.violate("v-touched", "undirected run modified the in-membership argument", dict(a.describe(), case=a.line("replay")))
             self.dist(a.variant())
+        # the random start itself on scripted draws (values at and below 1e-6 included): mirrored entries share one draw
+        init_functor_stage(self, "asymmetric-random-start", ["r"])
         # symmetric affinity from the random start (general model)
         runs = {"sy%d" % n: random_run(rng, variants=[(False, False, "r")], K=rng.choice([2, 3, 4]), maxit=rng.choice([1, 5, 20, 40]))
                 for n in range(60 if self.tier == "quick" else 600)}
@@ -1501,6 +1503,10 @@ class C18(Check):
                         bad.append("matrix accessor")
                     if [int(x) for x in o["dpos"]] != [a * R + i for i in range(R) for a in range(T)]:
                         bad.append("diagonal-tensor accessor (C=1)")
+                    if [int(x) for x in o.get("pos2", [])] != [j * R + i for i in range(R) for j in range(Cc)]:
+                        bad.append("two-index form t(i,j) of a tensor is not element (i,j) of layer 0 (const and non-const accessor)")
+                    if [int(x) for x in o.get("tpos2", [])] != [i * R + j for i in range(Cc) for j in range(R)]:
+                        bad.append("two-index form of the transposed view does not expose (i,j) as (j,i) of layer 0")
                     self.nontrivial((R, Cc, T))
                     if bad:
                         self.violate("layout", "R=%d C=%d T=%d: %s" % (R, Cc, T, "; ".join(bad)), {"R": R, "C": Cc, "T": T, "case": "replay idx %d %d %d" % (R, Cc, T)})
